@@ -1200,8 +1200,8 @@ func TestOnlyMatchingBytesAccepted(t *testing.T) {
 // ---------------------------------------------------------------------------
 // boundary class around constants.MaxBlobSize
 
-func runBoundary(t *rapid.T) {
-	tree := vcompose.GenTree(t, 2, rapid.SampledFrom(rootTypes).Draw(t, "backend"))
+func runBoundary(t *rapid.T, root string) {
+	tree := vcompose.GenTree(t, 2, root)
 	seed := rapid.Uint64Range(1, 1<<40).Draw(t, "contentSeed")
 	hn := rapid.SampledFrom(supported).Draw(t, "hash")
 	exact := vgen.Noise(seed, maxBlob)
@@ -1277,8 +1277,14 @@ func TestBoundary16MiB(t *testing.T) {
 		t.Skip("boundary class runs in shards 0,4,8,12")
 	}
 	defer debug.SetGCPercent(debug.SetGCPercent(40))
-	evid.Check(t, 6, 50, func(t *rapid.T) {
-		runBoundary(t)
-		debug.FreeOSMemory()
-	})
+	// every back end gets its own cases (one each in the quick tier): with a drawn back end six quick cases
+	// left four of the ten unvisited
+	for _, root := range rootTypes {
+		t.Run(root, func(t *testing.T) {
+			evid.Check(t, 1, 5, func(t *rapid.T) {
+				runBoundary(t, root)
+				debug.FreeOSMemory()
+			})
+		})
+	}
 }
